@@ -369,4 +369,168 @@ example : (∀ s ∈ [DrawSpec.range (.const 1) (.const 3), DrawSpec.weighted [(
 example : choicesIndex [2, 3, 1] (1 / 3) = 1 ∧ choicesIndex [2, 3, 1] (5 / 6) = 2 ∧ choicesIndex [2, 3, 1] (33 / 100) = 0 := by
   decide +kernel
 
+
+/-! ## round 4: `Options` as a function of the raw uniform value refines `weightedPick`
+
+`optionsSelect c s xs u` (Model/ChooseSelect.lean) follows `Options.__init__ → makeSelector → DiscreteRange.__init__ →
+DiscreteRange.sampleGiven (random.choices, cum_weights) → MultiplexerDistribution.sampleGiven` for the value `u` that
+`random()` returns.  The theorems say: the raw uniform values that select entry `k` of the options of non-zero weight
+are exactly the interval `[selLo k, selHi k)`, these intervals tile `[0,1)`, and the length of the `k`-th one is exactly the
+probability of the `k`-th entry of the distribution `weightedPick` (the model every `_prob` theorem above speaks about).
+So under an ideal uniform `random()` the code samples `weightedPick`. -/
+
+/-- the integer constants read from `Options.__init__`/`makeSelector`/`DiscreteRange` are the ones the refinement needs -/
+theorem gen_select_wf : Scenic.Gen.selectConfig.WF := by decide
+
+theorem choicesIndex_lt (ws : List Rat) (hne : ws ≠ []) (u : Rat) : choicesIndex ws u < ws.length := by
+  have hlen : 0 < ws.length := List.length_pos_iff.mpr hne
+  have := Nat.min_le_right (bisectRight (cumulative 0 ws) (u * ws.sum)) (ws.length - 1)
+  show min (bisectRight (cumulative 0 ws) (u * ws.sum)) (ws.length - 1) < ws.length
+  omega
+
+theorem selectIndex_wf (s : SelectConfig) (hs : s.WF) (ws : List Rat) (hne : ws ≠ []) (hsum : 0 < ws.sum) (u : Rat) :
+    selectIndex s ws u = some (choicesIndex ws u) := by
+  obtain ⟨h1, h2, h3, h4⟩ := hs
+  have hlen : 0 < ws.length := List.length_pos_iff.mpr hne
+  have hci := choicesIndex_lt ws hne u
+  unfold selectIndex
+  simp only [h1, h2, h3, h4]
+  have e1 : ¬ ws.length < 1 := by omega
+  have e2 : ¬ ws.length - 1 < 0 := by omega
+  have e3 : ¬ ws.length ≠ ws.length - 1 - 0 + 1 := by omega
+  have e4 : ¬ ((List.range (ws.length - 1 + 1)).drop 0).length ≠ ws.length := by
+    simp; omega
+  have e5 : ¬ ws.sum ≤ 0 := not_le.mpr hsum
+  rw [if_neg e1, if_neg e2, if_neg e3, if_neg e4, if_neg e5, if_neg (by simp)]
+  simp only [List.drop_zero]
+  rw [List.getElem?_range (by omega)]
+
+theorem select_interval (s : SelectConfig) (hs : s.WF) (ws : List Rat) (hpos : ∀ w ∈ ws, 0 < w) (u : Rat)
+    (h0 : 0 ≤ u) (h1 : u < 1) (k : Nat) (hk : k < ws.length) :
+    selectIndex s ws u = some k ↔ selLo ws k ≤ u ∧ u < selHi ws k := by
+  have hne : ws ≠ [] := by intro h; rw [h] at hk; simp at hk
+  have htot := sum_pos_of_pos ws hpos hne
+  rw [selectIndex_wf s hs ws hne htot u, Option.some_inj, choices_interval ws hpos u h0 h1 k hk]
+  unfold selLo selHi
+  rw [div_le_iff₀ htot, lt_div_iff₀ htot]
+
+theorem select_interval_length (ws : List Rat) (k : Nat) (hk : k < ws.length) :
+    selHi ws k - selLo ws k = ws[k] / ws.sum := by
+  unfold selHi selLo
+  rw [List.take_succ_eq_append_getElem hk, List.sum_append, ← sub_div]
+  congr 1
+  simp
+
+theorem select_partition (ws : List Rat) (hsum : 0 < ws.sum) :
+    selLo ws 0 = 0 ∧ (∀ k, selHi ws k = selLo ws (k + 1)) ∧ selHi ws (ws.length - 1) = 1 := by
+  refine ⟨by simp [selLo], fun k => rfl, ?_⟩
+  unfold selHi
+  have : List.take (ws.length - 1 + 1) ws = ws := List.take_of_length_le (by omega)
+  rw [this, div_self (ne_of_gt hsum)]
+
+theorem nz_pos {α : Type} (xs : List (α × Rat)) (hnn : ∀ x ∈ xs, 0 ≤ x.2) :
+    ∀ w ∈ (xs.filter (fun x => x.2 != 0)).map Prod.snd, 0 < w := by
+  intro w hw
+  rw [List.mem_map] at hw
+  obtain ⟨x, hx, rfl⟩ := hw
+  rw [List.mem_filter] at hx
+  have h1 := hnn x hx.1
+  have h2 : x.2 ≠ 0 := by simpa using hx.2
+  exact lt_of_le_of_ne h1 (Ne.symm h2)
+
+theorem any_neg_false {α : Type} (xs : List (α × Rat)) (hnn : ∀ x ∈ xs, 0 ≤ x.2) :
+    (xs.any fun x => decide (x.2 < 0)) = false := by
+  rw [List.any_eq_false]
+  intro x hx
+  have := hnn x hx
+  simp only [decide_eq_true_eq, not_lt]
+  exact this
+
+theorem optionsSelect_of_interval (c : Config) (hz : c.dropZero = true) (s : SelectConfig) (hs : s.WF) {α : Type}
+    (xs : List (α × Rat)) (hnn : ∀ x ∈ xs, 0 ≤ x.2) (u : Rat) (h0 : 0 ≤ u) (h1 : u < 1) (k : Nat)
+    (hk : k < (xs.filter (fun x => x.2 != 0)).length)
+    (hu : selLo ((xs.filter (fun x => x.2 != 0)).map Prod.snd) k ≤ u ∧
+          u < selHi ((xs.filter (fun x => x.2 != 0)).map Prod.snd) k) :
+    optionsSelect c s xs u = .picked ((xs.filter (fun x => x.2 != 0))[k]).1 := by
+  have hsel := (select_interval s hs _ (nz_pos xs hnn) u h0 h1 k (by simpa using hk)).mpr hu
+  have hne : (xs.filter (fun x => x.2 != 0)).isEmpty = false := by
+    cases h : xs.filter (fun x => x.2 != 0) with
+    | nil => rw [h] at hk; simp at hk
+    | cons a l => rfl
+  unfold optionsSelect
+  simp only [any_neg_false xs hnn, hz, if_true, Bool.false_eq_true, if_false, hne, hsel,
+    List.getElem?_eq_getElem hk]
+
+theorem weightedPick_entry (c : Config) (hz : c.dropZero = true) {α : Type}
+    (xs : List (α × Rat)) (hnn : ∀ x ∈ xs, 0 ≤ x.2) (k : Nat)
+    (hk : k < (xs.filter (fun x => x.2 != 0)).length) :
+    (weightedPick c xs)[k]? = some (.picked ((xs.filter (fun x => x.2 != 0))[k]).1,
+      selHi ((xs.filter (fun x => x.2 != 0)).map Prod.snd) k - selLo ((xs.filter (fun x => x.2 != 0)).map Prod.snd) k) := by
+  have hne : (xs.filter (fun x => x.2 != 0)).isEmpty = false := by
+    cases h : xs.filter (fun x => x.2 != 0) with
+    | nil => rw [h] at hk; simp at hk
+    | cons a l => rfl
+  rw [select_interval_length _ k (by simpa using hk)]
+  unfold weightedPick
+  simp only [any_neg_false xs hnn, hz, if_true, Bool.false_eq_true, if_false, hne, List.getElem?_map,
+    List.getElem?_eq_getElem hk, Option.map_some, List.getElem_map, sumW]
+
+
+/-- every raw uniform value lands in the interval of some entry, and that entry is what the pipeline returns -/
+theorem optionsSelect_lands (c : Config) (hz : c.dropZero = true) (s : SelectConfig) (hs : s.WF) {α : Type}
+    (xs : List (α × Rat)) (hnn : ∀ x ∈ xs, 0 ≤ x.2) (hne : xs.filter (fun x => x.2 != 0) ≠ [])
+    (u : Rat) (h0 : 0 ≤ u) (h1 : u < 1) :
+    ∃ k, ∃ hk : k < (xs.filter (fun x => x.2 != 0)).length,
+      (selLo ((xs.filter (fun x => x.2 != 0)).map Prod.snd) k ≤ u ∧
+        u < selHi ((xs.filter (fun x => x.2 != 0)).map Prod.snd) k) ∧
+      optionsSelect c s xs u = .picked ((xs.filter (fun x => x.2 != 0))[k]).1 := by
+  have hpos := nz_pos xs hnn
+  have hne' : (xs.filter (fun x => x.2 != 0)).map Prod.snd ≠ [] := by simpa using hne
+  have hlt := choicesIndex_lt _ hne' u
+  have hk : choicesIndex ((xs.filter (fun x => x.2 != 0)).map Prod.snd) u < (xs.filter (fun x => x.2 != 0)).length := by
+    simpa using hlt
+  have hsel := selectIndex_wf s hs _ hne' (sum_pos_of_pos _ hpos hne') u
+  have hint := (select_interval s hs _ hpos u h0 h1 _ hlt).mp hsel
+  exact ⟨_, hk, hint, optionsSelect_of_interval c hz s hs xs hnn u h0 h1 _ hk hint⟩
+
+/-- **options_raw_uniform_refines.** For non-negative weights and every entry `k` of the options of non-zero weight: every
+raw uniform value in `[selLo k, selHi k)` makes the pipeline return that entry, and the length of this interval is exactly
+the probability `weightedPick` gives to its `k`-th entry (which is that same option). -/
+theorem options_raw_uniform_refines (c : Config) (hz : c.dropZero = true) (s : SelectConfig) (hs : s.WF) {α : Type}
+    (xs : List (α × Rat)) (hnn : ∀ x ∈ xs, 0 ≤ x.2) (k : Nat) (hk : k < (xs.filter (fun x => x.2 != 0)).length) :
+    (∀ u : Rat, 0 ≤ u → u < 1 →
+        selLo ((xs.filter (fun x => x.2 != 0)).map Prod.snd) k ≤ u ∧
+          u < selHi ((xs.filter (fun x => x.2 != 0)).map Prod.snd) k →
+        optionsSelect c s xs u = .picked ((xs.filter (fun x => x.2 != 0))[k]).1) ∧
+    (weightedPick c xs)[k]? = some (.picked ((xs.filter (fun x => x.2 != 0))[k]).1,
+      selHi ((xs.filter (fun x => x.2 != 0)).map Prod.snd) k - selLo ((xs.filter (fun x => x.2 != 0)).map Prod.snd) k) :=
+  ⟨fun u h0 h1 hu => optionsSelect_of_interval c hz s hs xs hnn u h0 h1 k hk hu, weightedPick_entry c hz xs hnn k hk⟩
+
+/-- the same on the constants generated from the current source (no hypothesis on the constants) -/
+theorem options_raw_uniform_refines_gen {α : Type}
+    (xs : List (α × Rat)) (hnn : ∀ x ∈ xs, 0 ≤ x.2) (k : Nat) (hk : k < (xs.filter (fun x => x.2 != 0)).length) :
+    (∀ u : Rat, 0 ≤ u → u < 1 →
+        selLo ((xs.filter (fun x => x.2 != 0)).map Prod.snd) k ≤ u ∧
+          u < selHi ((xs.filter (fun x => x.2 != 0)).map Prod.snd) k →
+        optionsSelect Scenic.Gen.chooseConfig Scenic.Gen.selectConfig xs u =
+          .picked ((xs.filter (fun x => x.2 != 0))[k]).1) ∧
+    (weightedPick Scenic.Gen.chooseConfig xs)[k]? = some (.picked ((xs.filter (fun x => x.2 != 0))[k]).1,
+      selHi ((xs.filter (fun x => x.2 != 0)).map Prod.snd) k - selLo ((xs.filter (fun x => x.2 != 0)).map Prod.snd) k) :=
+  options_raw_uniform_refines _ gen_config_wf.2.2.2 _ gen_select_wf xs hnn k hk
+
+/-- the exceptions agree too: a negative weight is `ValueError` in both, for every raw value -/
+theorem optionsSelect_negative_agrees (c : Config) (s : SelectConfig) {α : Type} (xs : List (α × Rat)) (u : Rat)
+    (h : (xs.any fun x => decide (x.2 < 0)) = true) :
+    optionsSelect c s xs u = .negWeight ∧ weightedPick c xs = Dist.pure .negWeight :=
+  ⟨by simp [optionsSelect, h], by simp [weightedPick, h]⟩
+
+-- non-vacuity: weights 2, 0, 3, 1 — the option of weight 0 is never selected, `u = 1/2` lies in `[1/3, 5/6)` → entry 1 (= 9)
+example : optionsSelect ⟨1, 1, 0, true, true⟩ ⟨1, 0, 1, 0⟩ [((7 : Int), (2 : Rat)), (8, 0), (9, 3), (10, 1)] (1 / 2) = .picked 9 := by
+  decide +kernel
+example : selLo [2, 3, 1] 1 = 1 / 3 ∧ selHi [2, 3, 1] 1 = 5 / 6 ∧ selHi [2, 3, 1] 1 - selLo [2, 3, 1] 1 = 3 / 6 := by
+  decide +kernel
+example : ∀ x ∈ [((7 : Int), (2 : Rat)), (8, 0), (9, 3), (10, 1)], 0 ≤ x.2 := by decide +kernel
+-- a selector built with `DiscreteRange(1, n, weights)` would raise for every input (why `gen_select_wf` is needed)
+example : optionsSelect ⟨1, 1, 0, true, true⟩ ⟨1, 1, 1, 0⟩ [((7 : Int), (2 : Rat)), (9, 3)] (1 / 2) = .crash := by decide +kernel
+
 end Scenic.C19
